@@ -240,13 +240,16 @@ Definition dev_typed : Prop :=
 
 (* an event the real system can deliver in state [s]: the task runs only when it is enabled, the run permit
    is released only by __call__ / resume(), resume() is called on a paused engine, only __call__ and resume()
-   return to the caller; requests: pause, hard or deferred to the next checkpoint *)
+   return to the caller; requests: pause (hard or deferred to the next checkpoint) and suspension (no pre/post plans),
+   released at any time; no new request while a suspension keeps rewinding switched off (that window, in which a
+   pause or a second suspension lets the held plan go, is the subject of C11) *)
 Definition ev_ok (s : st P D) (e : event) : bool :=
   match e with
   | EvTask => match pc P D s with PcPermit0 => permit P D s | _ => true end
   | EvPermit => negb (rstate_eqb (state P D s) Paused && interrupted P D s)
   | EvMain AResume => rstate_eqb (state P D s) Paused
-  | EvMainDone (ACall _) | EvMainDone AResume | EvReqPause _ | EvStatus _ true | EvCacheDone => true
+  | EvReqPause _ | EvReqSuspend _ false false => rewindable P D s
+  | EvMainDone (ACall _) | EvMainDone AResume | EvRelease _ | EvStatus _ true | EvCacheDone => true
   | _ => false
   end.
 Fixpoint sched_ok (s : st P D) (evs : list event) : bool :=
